@@ -81,11 +81,14 @@ def check_miter(case):
         kw = {k: v for k, v in (('left_name', case['names'][0]), ('right_name', case['names'][1])) if v is not None}
     n, m = len(L['inputs']), len(L['outputs'])
     if case.get('prelude') == 'own_pairwise_xor' and m >= 1:
-        from cirbo.synthesis.generation.generation import generate_pairwise_xor
-
-        own = generate_pairwise_xor(m)
-        own.emplace_gate('all_equal', core.gate.NOR if m > 1 else core.gate.NOT, tuple(own.outputs))
-        own.set_outputs(['all_equal'])
+        try:
+            from cirbo.synthesis.generation import generate_pairwise_xor
+        except ImportError:
+            generate_pairwise_xor = None
+        if generate_pairwise_xor is not None:
+            own = generate_pairwise_xor(m)
+            own.emplace_gate('all_equal', core.gate.NOR if m > 1 else core.gate.NOT, tuple(own.outputs))
+            own.set_outputs(['all_equal'])
     if len(R['inputs']) != n or len(R['outputs']) != m:
         try:
             build_miter(cl, cr, **kw)
